@@ -12,6 +12,7 @@ def step (line : String) : String :=
   | "addresults" :: args => handleAddResults args
   | "lcov.parse" :: args => handleLcovParse args
   | "utf8lossy" :: args => handleUtf8Lossy args
+  | "lcov.print" :: args => handleLcovPrint args
   | "pipe.replay" :: args => handlePipeReplay args
   | "pipe.stuck" :: args => handlePipeStuck args
   | "confine.enclosed" :: args => handleEnclosed args
